@@ -145,7 +145,10 @@ def opPairs : Op → List (Bytes × Int)
 def annot (s : State) (Ls : Ledgers) (op : Op) : String :=
   let net := (opPairs op).map fun (supi, rg) =>
     s!"{hexOfBytes supi}/{rg}:{creditedOp s op supi rg - ratedOp s op supi rg}"
-  s!"#ok={if opOKb s op then 1 else 0} #comp={if opCompliantB s Ls op then 1 else 0} #net={joinOr ";" net}"
+  -- across outages (theorem C01_outage_step): side conditions without "servers reachable", and credited - booked
+  let acc := (opPairs op).map fun (supi, rg) =>
+    s!"{hexOfBytes supi}/{rg}:{creditedOp s op supi rg - accountedOp s op supi rg}"
+  s!"#ok={if opOKb s op then 1 else 0} #comp={if opCompliantB s Ls op then 1 else 0} #net={joinOr ";" net} #okx={if opOKx s op then 1 else 0} #acc={joinOr ";" acc}"
 
 abbrev ChfSt := State × Ledgers
 
@@ -167,6 +170,14 @@ def chfOp (guard : SplitGuard) (sl : ChfSt) : Tok → ChfSt × String
      | _, _, _ => (sl, "bad-op"))
   | ["end"] => (sl, "ok")
   | ["slowdb", _] => (sl, "ok")      -- the store answers slowly: no effect on the sequential model
+  | ["outage", which, mode] =>
+    -- reachability of the account-balance / rating server (down: dial error, silent: no answer - alike for the model)
+    let up := mode = "up"
+    if mode = "up" ∨ mode = "down" ∨ mode = "silent" then
+      if which = "abmf" then ((setReach sl.1 up sl.1.rfUp, sl.2), "ok")
+      else if which = "rf" then ((setReach sl.1 sl.1.abmfUp up, sl.2), "ok")
+      else (sl, "bad-op")
+    else (sl, "bad-op")
   | ["reset"] => (({}, []), "ok")
   | "create" :: t =>
     (match pReq t with
